@@ -170,6 +170,9 @@ impl Prop for C01 {
             "same size is read as data length + 4-byte-padded pool of the distinct c-strings (interpretation 1)".into(),
         ]
     }
+    fn both_builds() -> bool {
+        true
+    }
     fn random_cases(tier: Tier) -> u64 {
         tier.pick(60_000, 800_000)
     }
